@@ -44,8 +44,30 @@ pub fn hist_json(h: &[Ev]) -> Value {
     json!(h.iter().map(Ev::name).collect::<Vec<_>>())
 }
 
+/// The commands that act on the live tracer (not on the frontend's snapshot of it): a trace update
+/// landing between such a command and the next snapshot is a different history from one landing
+/// after the snapshot.
+pub const LIVE_KEYS: &[&str] = &["clear_trace_data", "toggle_freeze"];
+
+/// `al` + for every live-data command in it: that command followed at once by each trace update of `al`.
+pub fn with_races(al: &[Ev]) -> Vec<Ev> {
+    let mut v = al.to_vec();
+    for k in al {
+        if let Ev::Key(k) = k {
+            if LIVE_KEYS.contains(k) {
+                for t in al {
+                    if let Ev::Trace(t, i) = t {
+                        v.push(Ev::KeyTrace(k, *t, *i));
+                    }
+                }
+            }
+        }
+    }
+    v
+}
+
 pub fn hist_from_json(v: &Value, targets: usize) -> Vec<Ev> {
-    let all = full_alphabet(targets.max(2));
+    let all = with_races(&full_alphabet(targets.max(2)));
     v.as_array()
         .expect("history")
         .iter()
@@ -228,7 +250,7 @@ pub fn run(args: &Args) -> i32 {
     }
     // (ii-a) flows: three distinct paths against flow caps of 1, 2 and 3
     for (name, cfg) in [("flow-cap-3", base.clone()), ("flow-cap-2", WorldCfg { max_flows: 2, ..base.clone() }), ("flow-cap-1", WorldCfg { max_flows: 1, ..base.clone() })] {
-        let al = projected("flows", cfg.targets);
+        let al = with_races(&projected("flows", cfg.targets));
         let depth = if tier == Tier::Thorough { 10 } else { 8 };
         let r = explore::bfs(&cfg, &al, &[], depth, if tier == Tier::Thorough { 100_000 } else { 6_000 }, no_check);
         states += r.states;
@@ -243,7 +265,7 @@ pub fn run(args: &Args) -> i32 {
     // (ii-a2) hop details x freeze x clear: a small alphabet searched deep (towards its fixpoint):
     // what is selected in a frozen picture must still exist when the display thaws
     {
-        let al = projected("details", base.targets);
+        let al = with_races(&projected("details", base.targets));
         let depth = if tier == Tier::Thorough { 16 } else { 12 };
         let r = explore::bfs(&base, &al, &[], depth, if tier == Tier::Thorough { 200_000 } else { 20_000 }, no_check);
         states += r.states;
@@ -273,6 +295,7 @@ pub fn run(args: &Args) -> i32 {
             }
             let mut al: Vec<Ev> = keys.into_iter().map(Ev::Key).collect();
             al.extend(traces.into_iter().map(|(t, i)| Ev::Trace(t, i)));
+            let al = with_races(&al);
             let depth = if tier == Tier::Thorough { 16 } else { 10 };
             let r = explore::bfs(cfg, &al, &[], depth, if tier == Tier::Thorough { 150_000 } else { 1_200 }, no_check);
             states += r.states;
